@@ -23,6 +23,7 @@ spec recValue(f int, k int) bseq
 spec tailClean(f int) bool          // the file ends exactly at recPos(f, recN(f))
 spec recTs(f int, k int) int64      // derived index timestamp of record k: max(recMicro, previous recTs)
 spec recHash(f int, k int) uint64   // key hash of record k
+spec verOf(f int) Version           // format version of the file (from its header; headerless files are V1)
 
 pred wfFile(f int) :=
     recN(f) >= 0
@@ -49,6 +50,24 @@ pred atRec(f int, p int64) :=
 
 ghost field Reader.gfile int
 
+// position p is a record boundary of f: the start of record recIdx(f,p), or the end of the valid prefix
+pred atIdx(f int, p int64) :=
+    0 <= recIdx(f, p) && recIdx(f, p) <= recN(f) && recPos(f, recIdx(f, p)) == p
+
+// ---- delete-by-rewrite accounting (C12): over the first k records of f and the requested set drop
+// number of records whose offset is requested
+spec delCount(f int, k int, drop map[int64]bool) int
+    ensures k <= 0 ==> result == 0
+    ensures result >= 0
+    ensures k >= 0 ==> delCount(f, k + 1, drop) == result + ite(drop[recOffset(f, k)], 1, 0)
+// record number of the j-th requested record
+spec delIdx(f int, drop map[int64]bool, j int) int
+    ensures forall k int :: 0 <= k && drop[recOffset(f, k)] && delCount(f, k, drop) == j ==> result == k
+// storage size of the requested records: per record the fixed part hdr, key and value bytes, and the index item isz
+spec delSum(f int, k int, drop map[int64]bool, hdr int64, isz int64) int64
+    ensures k <= 0 ==> result == 0
+    ensures k >= 0 ==> delSum(f, k + 1, drop, hdr, isz) == result + ite(drop[recOffset(f, k)], hdr + len(recKey(f, k)) + len(recValue(f, k)) + isz, 0)
+
 // ================================================================ reading
 
 // the format-specific record reader behind (*Reader).reader; readV1/readV2 refine it
@@ -70,6 +89,8 @@ func OpenReaderMem
 func OpenReader
     flags assumed
     ensures err == nil ==> r != nil && fresh(r) && r.gfile == fsContent[path]
+    // the version found in the file header; records start right after the header (V2) or at 0 (V1)
+    ensures err == nil ==> (r.v == V1 || r.v == V2) && r.v == verOf(r.gfile) && recPos(r.gfile, 0) == ite(r.v == V1, 0, 8)
     ensures err != nil ==> ioerr(err)
 func (*Reader).Close
     flags assumed
